@@ -119,6 +119,15 @@ class Run:
                         % (name, err, outpath))
         return st
 
+    def tlc_many(self, jobs, parallel=8):
+        """Run several TLC jobs (dicts of keyword arguments for tlc()) concurrently; returns their stats in order.
+        Generator-heavy specs evaluate their constant definitions once per worker, so few workers per process and
+        several processes is the fast configuration."""
+        from concurrent.futures import ThreadPoolExecutor
+        with ThreadPoolExecutor(max_workers=parallel) as ex:
+            futs = [ex.submit(self.tlc, **j) for j in jobs]
+            return [f.result() for f in futs]
+
     def records(self, st, to=None):
         """Extract the JSON records printed by PrintT(ToJson(..)) in a TLC run; writes ndjson, returns (path, n)."""
         to = to or os.path.join(self.dir, st["cfg"] + ".cases.ndjson")
